@@ -72,7 +72,8 @@ func run(t *testing.T, sp spec) {
 
 func runOnce(t *testing.T, sp spec, s Script) evid.Outcome {
 	tr := Execute(t, s, sp.leak)
-	o := evid.Outcome{Classes: Classes(s, tr), Summary: summary(s, tr)}
+	o := evid.Outcome{Classes: Classes(s, tr), Summary: summary(s, tr),
+		Counters: map[string]int{"script_ops_executed": tr.OpsDone, "script_ops_that_were_noops": tr.Noops, "deliveries": len(tr.Deliveries), "quiescent_snapshots": len(tr.Snaps), "divider_calls": tr.DivCalls}}
 	if sp.skip != nil {
 		if r := sp.skip(s, tr); r != "" {
 			o.Skip = r
